@@ -915,16 +915,15 @@ class Ontology(OntologyElement):
         if isinstance(other_ontology, Ontology):
             if validate:
                 other_ontology.validate()
-            for object_type in other_ontology.get_object_types().values():
-                self._add_object_type(object_type)
-            for event_type in other_ontology.get_event_types().values():
-                self._add_event_type(event_type)
-            for concept in other_ontology.get_concepts().values():
-                self._add_concept(concept)
-            for source in other_ontology.get_event_sources().values():
-                self._add_event_source(source)
+            # Ontologies must not share the objects that represent their definitions: the
+            # definitions in the other ontology belong to that ontology and changing these
+            # would change both ontologies while notifying just one of them. So, we update
+            # from a serialized copy of the other ontology.
+            edxml_element = etree.Element('{http://edxml.org/edxml}edxml', nsmap={None: 'http://edxml.org/edxml'})
+            edxml_element.append(other_ontology.generate_xml())
+            other_ontology = etree.fromstring(etree.tostring(edxml_element))[0]
 
-        elif isinstance(other_ontology, etree._Element):
+        if isinstance(other_ontology, etree._Element):
             for element in other_ontology:
                 if element.tag == '{http://edxml.org/edxml}object-types':
                     self.__parse_object_types(element, validate)
